@@ -473,6 +473,11 @@ def gen_code_cmdline():
     return pytrans.gen_code_cmdline()
 
 
+def gen_code_url():
+    from . import pytrans
+    return pytrans.gen_code_url()
+
+
 GENERATORS = {
     "Schema": gen_schema,
     "Logger": gen_logger,
@@ -484,6 +489,7 @@ GENERATORS = {
     "CodeDatatypes": gen_code_datatypes,
     "CodeSubstitution": gen_code_substitution,
     "CodeCmdline": gen_code_cmdline,
+    "CodeUrl": gen_code_url,
 }
 
 
